@@ -60,7 +60,9 @@ func (a *AddrManager) verifSecInfo() VerifSecInfo {
 		info.NextInternalIndex = a.branchInfo.nextInternalIndex
 	}
 	for i, s := range a.index {
-		info.AddressesByIndex[i] = s
+		if i.branch == ExternalBranch {
+			info.AddressesByIndex[i.index] = s
+		}
 	}
 	for s, ma := range a.addrs {
 		info.AddressBranchIndex[s] = [2]uint32{ma.derivationPath.Branch, ma.derivationPath.Index}
